@@ -167,7 +167,16 @@ class WebProcessorSession(BaseProcessorSession):
                 url_record.url_info.scheme == 'http':
             return
 
-        request.fields['Referer'] = url_record.parent_url
+        # Do not send the username and password of the parent URL.
+        parent_url_info = URLInfo.parse(url_record.parent_url)
+        referrer = '{0}://{1}{2}'.format(
+            parent_url_info.scheme, parent_url_info.hostname_with_port,
+            parent_url_info.path)
+
+        if parent_url_info.query:
+            referrer = '{0}?{1}'.format(referrer, parent_url_info.query)
+
+        request.fields['Referer'] = referrer
 
     @asyncio.coroutine
     def process(self):
